@@ -1,5 +1,5 @@
 #!/bin/bash
 # usage: goal.sh File.v LINE  — run coqtop on the first LINE lines and show the goal
 f=$1; n=$2
-cd /verif/coq
+cd /tmp/wt-conc/coq
 ( head -n "$n" "$f"; echo; echo "Show." ) | timeout 120 coqtop -Q . AF 2>&1 | tail -n ${3:-40}
